@@ -745,7 +745,26 @@ func c01FinishWrites(e *Env, s *Sched) {
 
 // isAccessor: a method that stores its own parameter/constant into its receiver.
 func isAccessor(f *ssa.Function) bool {
-	return f.Signature.Recv() != nil && len(f.Blocks) <= 2
+	if f.Signature.Recv() == nil || len(f.Blocks) > 2 {
+		return false
+	}
+	for _, b := range f.Blocks {
+		for _, in := range b.Instrs {
+			ci, ok := in.(ssa.CallInstruction)
+			if !ok {
+				continue
+			}
+			if _, isGo := in.(*ssa.Go); isGo {
+				return false
+			}
+			switch ir.CalleeName(ci.Common()) {
+			case "(*sync.Mutex).Lock", "(*sync.Mutex).Unlock", "(*sync.RWMutex).Lock", "(*sync.RWMutex).Unlock", "(*sync.RWMutex).RLock", "(*sync.RWMutex).RUnlock", "time.Now":
+			default:
+				return false
+			}
+		}
+	}
+	return true
 }
 
 func shortSite(e *Env, ev ir.StoreEvent) string {
